@@ -28,7 +28,7 @@ def _build(name, unit_dir, scratch, auto_map):
                 src = os.path.join(d, name + '__witness.rs')
                 out = os.path.join(d, name + '__witness')
                 open(src, 'w').write(g.text)
-                p = subprocess.run(['rustc', '--edition', '2021', '-O', '-A', 'warnings', '--error-format=json', '-o', out, src],
+                p = subprocess.run(['rustc', '--edition', '2021', '-O', '-C', 'overflow-checks=on', '-A', 'warnings', '--error-format=json', '-o', out, src],
                                    capture_output=True, text=True, timeout=300)
                 if p.returncode == 0:
                     exe = out
@@ -75,7 +75,7 @@ def find(prop, u, f, nm):
     exe = _build(u.name, unit_dir, os.path.dirname(os.path.dirname(u.gen_path)), getattr(u, 'auto_map', None))
     if not exe:
         return None
-    label = f.labels[0] if f.labels else ''
+    label = f.labels[0] if f.labels else re.sub(r'[^A-Za-z0-9_.]+', '_', f.message)
     return _run(exe, re.sub(r'@.*$', '', label), f.fn)
 
 
@@ -100,3 +100,16 @@ def sweep(u, unit_dir, scratch):
             if w:
                 found.append(dict(fn=cur_fn, label=lab, witness=w))
     return found
+
+
+def bounded(u, unit_dir, scratch, labels):
+    """Run the unit's enumerator for clauses registered as bounded stand-ins (label = fn-prefix.clause)."""
+    exe = _build(u.name, unit_dir, scratch, getattr(u, 'auto_map', None))
+    rows = []
+    for lab in labels:
+        if not exe:
+            rows.append(dict(label=lab, fn='', result='error', why='replay program did not build'))
+            continue
+        w = _run(exe, lab, lab.split('.')[0])
+        rows.append(dict(label=lab, fn=lab.split('.')[0], result='witness' if w else 'ok', witness=w))
+    return rows
